@@ -47,11 +47,12 @@ def main():
             json.dump(out, fh)
         os.replace(tmp, result_path)
 
+    open_findings = tuple(t for t in os.environ.get('VERIF_OPEN_FINDINGS', '').split(',') if t)
     if target_name == 'c07':
         from checks import c07
 
         def one(data):
-            ref = c07.check_text(data)
+            ref = c07.check_text(data, avoid=open_findings)
             if ref is None:
                 return False, False
             return True, bool(c07.classify(data, ref))
